@@ -261,6 +261,10 @@ pub fn build(
         }
     }
 
+    if let Some(FunctionBody::Address { address }) = &body {
+        type_registry.ensure_address_fits(*address, &format!("function `{}`", function.name))?;
+    }
+
     if !is_vfunc && body.is_none() {
         anyhow::bail!(
             "function `{}` has no implementation available; did you forget to assign an `address` attribute?",
